@@ -77,7 +77,8 @@ def c06_spec(draw, max_glyphs=9, max_passes=3):
         rules = []
         for _ in range(nrules):
             blen = draw(st.integers(1, 5 - pre))
-            items = [draw(st.integers(0, len(classes) - 1)) for _ in range(pre + blen)]
+            # (the last class sits at the end of the class data: 1 item in 8 names it, so that accepted corruptions there get used)
+            items = [draw(st.integers(0, len(classes) - 1)) if draw(st.integers(0, 7)) else len(classes) - 1 for _ in range(pre + blen)]
             if rules and draw(st.integers(0, 1)) == 0:
                 # compete with an earlier rule of this pass: same items, or a prefix / an extension of them
                 base = list(rules[draw(st.integers(0, len(rules) - 1))]['items'])
@@ -121,7 +122,7 @@ def c06_spec(draw, max_glyphs=9, max_passes=3):
                         ref = draw(st.integers(-pre, blen - 1))
                         it = dict(op='subs', ref=ref, attrs=[])
                         it['in'] = items[pre + ref]
-                        it['out'] = draw(st.integers(0, len(classes) - 1))
+                        it['out'] = draw(st.integers(0, len(classes) - 1)) if draw(st.integers(0, 3)) else len(classes) - 1
                     elif k == 6:
                         it = dict(op='copy', ref=draw(st.sampled_from(srcrefs(bi))), attrs=[])
                         if it['ref'] != bi:
@@ -188,6 +189,9 @@ def c06_spec(draw, max_glyphs=9, max_passes=3):
                 glat_version=draw(st.sampled_from([1, 2, 3])), gloc_long=draw(st.booleans()),
                 dir=draw(st.integers(0, 1)), nuser=nuser, ngattr=A0 + NGATTR_USER + 1, glyphs=glyphs, cmap=cmap, classes=classes,
                 passes=passes, nsubst=nsub, feats=feats, mark_class=mark_class)
+    # class-map layout: classes[0:nlinear] are stored as linear glyph lists, the rest as sorted (glyph, index) lookup tables
+    # searched by bisection; both encodings mean the same (no class above repeats a glyph), so the model does not care
+    spec['nlinear'] = draw(st.sampled_from([len(classes), len(classes), 0, draw(st.integers(0, len(classes)))]))
     return spec
 
 
